@@ -73,6 +73,7 @@ func genCase(r *rand.Rand, id string, tier string) Case {
 	default:
 		in.Root = pick(r, []string{"@/tree", "@/x/src"})
 	}
+	in.Prior = in.Root != "." && r.Intn(4) == 0
 	// languages of this tree
 	nl := 1 + r.Intn(4)
 	switch x := r.Intn(16); {
